@@ -294,7 +294,7 @@ fn volume_upload(r: &mut Report, rng: &mut Rng, shard: usize, schema: &refcodec:
 }
 
 /// One file beyond 41 MiB (bytes_sent x 100 no longer fits 32 bits): blocks around that mark, in the middle and at the end.
-fn big_file_upload(r: &mut Report, rng: &mut Rng, shard: usize, schema: &refcodec::layout::Schema, pools: &Pools) {
+pub fn big_file_upload(r: &mut Report, rng: &mut Rng, shard: usize, schema: &refcodec::layout::Schema, pools: &Pools, id: &str) {
     let size = 43_100_000usize + rng.below(50_000) as usize;
     let mut content = rng.bytes(1 << 16);
     while content.len() < size {
@@ -306,7 +306,7 @@ fn big_file_upload(r: &mut Report, rng: &mut Rng, shard: usize, schema: &refcode
     }
     let mut files: BTreeMap<u8, Vec<u8>> = BTreeMap::new();
     files.insert(0x10, content);
-    let dir = PayloadDir::create(&format!("c11-big-{shard}"), &files, &[]);
+    let dir = PayloadDir::create(&format!("{id}-big-{shard}"), &files, &[]);
     let sizes: BTreeMap<u8, u32> = files.iter().map(|(k, v)| (*k, v.len() as u32)).collect();
     let block = 32768u32;
     let params = WriteFileParams { dir: dir.dir.clone(), password: 123456, block };
@@ -335,7 +335,7 @@ fn big_file_upload(r: &mut Report, rng: &mut Rng, shard: usize, schema: &refcode
     r.count("uploads_of_a_file_beyond_41_MiB", 1);
     r.count("data_requests", offsets.len() as u64);
     r.note("largest_file_bytes", &format!("{size:010}"));
-    ex.check_c05(r, schema, "C11");
+    ex.check_c05(r, schema, id);
 }
 
 pub fn run(ctx: &Ctx) -> i32 {
@@ -357,7 +357,7 @@ pub fn run(ctx: &Ctx) -> i32 {
         }
         if shard == 1 % threads {
             let mut vrng = Rng::derive(seed, 0xC11_B16);
-            big_file_upload(r, &mut vrng, shard, &schema, &pools);
+            big_file_upload(r, &mut vrng, shard, &schema, &pools, "C11");
         }
         let mut rng = Rng::derive(seed, 0xC11 + shard as u64);
         for _ in 0..n / threads {
